@@ -53,7 +53,7 @@ pub fn emit_wrappers(all: &[GShape], out_dir: &str) {
             let mut unwind = 12usize;
             for &i in chunk {
                 let g = &all[i];
-                let rows = if f.body == "c17" { g.rows.len() } else { 0 };
+                let rows = 0;
                 for v in [g.ops.len(), g.wits.len(), g.lockvecs.len(), g.policy.len(), rows] {
                     unwind = unwind.max(v);
                 }
